@@ -25,6 +25,9 @@ pub enum J {
     RenderHistory { seed: u64, png: bool },
     /// schedule: `threads` threads run a shuffle of the same job list
     Schedule { seed: u64, threads: usize, njobs: usize },
+    /// cold start: a FRESH PROCESS in which `threads` threads are released from a barrier into their very first
+    /// calls of the crate (lazily initialised state is built under contention exactly once per process)
+    ColdStart { seed: u64, threads: usize, njobs: usize },
 }
 
 impl J {
@@ -33,6 +36,7 @@ impl J {
             J::BuildHistory { seed } => json!({"fam": "build-history", "seed": seed.to_string()}),
             J::RenderHistory { seed, png } => json!({"fam": "render-history", "seed": seed.to_string(), "png": png}),
             J::Schedule { seed, threads, njobs } => json!({"fam": "schedule", "seed": seed.to_string(), "threads": threads, "njobs": njobs}),
+            J::ColdStart { seed, threads, njobs } => json!({"fam": "cold-start", "seed": seed.to_string(), "threads": threads, "njobs": njobs}),
         }
     }
     fn from_json(v: &Value) -> Option<J> {
@@ -41,6 +45,7 @@ impl J {
             "build-history" => J::BuildHistory { seed },
             "render-history" => J::RenderHistory { seed, png: v.get("png")?.as_bool()? },
             "schedule" => J::Schedule { seed, threads: v.get("threads")?.as_u64()? as usize, njobs: v.get("njobs")?.as_u64()? as usize },
+            "cold-start" => J::ColdStart { seed, threads: v.get("threads")?.as_u64()? as usize, njobs: v.get("njobs")?.as_u64()? as usize },
             _ => return None,
         })
     }
@@ -411,8 +416,91 @@ fn schedule(ctx: &Ctx, st: &mut Stats, seed: u64, threads: usize, njobs: usize, 
     }
 }
 
+/// child side of the cold-start family: `vcheck c14-child <seed> <threads> <njobs>` prints "D <i> <digest>" lines
+pub fn child_main(seed: u64, threads: usize, njobs: usize) -> i32 {
+    let caps = oracle::tables::Caps::new();
+    let seeds: Vec<u64> = (0..njobs).map(|i| mix(seed, i as u64)).collect();
+    let barrier = std::sync::Barrier::new(threads);
+    let out = std::sync::Mutex::new(Vec::<(usize, usize, u64)>::new());
+    std::thread::scope(|s| {
+        for t in 0..threads {
+            let (seeds, caps, barrier, out) = (&seeds, &caps, &barrier, &out);
+            std::thread::Builder::new()
+                .stack_size(pool::STACK)
+                .spawn_scoped(s, move || {
+                    let mut order: Vec<usize> = (0..seeds.len()).collect();
+                    let mut rng = Rng::new(mix(seed, 0xc01d + t as u64));
+                    rng.shuffle(&mut order);
+                    barrier.wait();
+                    let mut mine = Vec::with_capacity(order.len());
+                    for &i in &order {
+                        mine.push((t, i, schedule_unit(seeds[i], caps)));
+                    }
+                    out.lock().unwrap().extend(mine);
+                })
+                .expect("spawn");
+        }
+    });
+    for (t, i, d) in out.into_inner().unwrap() {
+        println!("D {t} {i} {d:016x}");
+    }
+    println!("END");
+    0
+}
+
+fn cold_start(ctx: &Ctx, st: &mut Stats, seed: u64, threads: usize, njobs: usize, j: &J) {
+    let seeds: Vec<u64> = (0..njobs).map(|i| mix(seed, i as u64)).collect();
+    let caps = &ctx.caps;
+    let reference: Vec<u64> = pool::on_fresh_thread(|| seeds.iter().map(|&s| schedule_unit(s, caps)).collect());
+    st.eval();
+    let exe = match std::env::current_exe() {
+        Ok(e) => e,
+        Err(e) => {
+            st.inconclusive(format!("cold start: current_exe: {e}"));
+            return;
+        }
+    };
+    let o = match std::process::Command::new(exe).args(["c14-child", &seed.to_string(), &threads.to_string(), &njobs.to_string()]).output() {
+        Ok(o) => o,
+        Err(e) => {
+            st.inconclusive(format!("cold start: cannot spawn child: {e}"));
+            return;
+        }
+    };
+    let text = String::from_utf8_lossy(&o.stdout);
+    if !o.status.success() || !text.contains("END") {
+        st.violation(ID, "cold-start-crash", format!("a fresh process with {threads} threads racing into their first calls ended with {} ({})", o.status, String::from_utf8_lossy(&o.stderr).lines().last().unwrap_or("")), j.to_json());
+        return;
+    }
+    let (mut compared, mut bad) = (0u64, None);
+    for l in text.lines() {
+        let mut it = l.split_whitespace();
+        if it.next() != Some("D") {
+            continue;
+        }
+        let (t, i, d) = (it.next().and_then(|x| x.parse::<usize>().ok()), it.next().and_then(|x| x.parse::<usize>().ok()), it.next().and_then(|x| u64::from_str_radix(x, 16).ok()));
+        if let (Some(t), Some(i), Some(d)) = (t, i, d) {
+            compared += 1;
+            if reference.get(i) != Some(&d) && bad.is_none() {
+                bad = Some((t, i));
+            }
+        }
+    }
+    if compared != (threads * njobs) as u64 {
+        st.inconclusive(format!("cold start: child reported {compared} digests, expected {}", threads * njobs));
+        return;
+    }
+    st.count("cold_start_digests_compared", compared);
+    st.count("cold_start_processes", 1);
+    st.distinct(mix(seed ^ 0xc01d, threads as u64));
+    if let Some((t, i)) = bad {
+        st.violation(ID, "cold-start-race", format!("in a fresh process whose {threads} threads made their first calls at the same moment, thread {t} computed a different result for job {i} than the single-threaded reference"), j.to_json());
+    }
+}
+
 pub fn observe(ctx: &Ctx, st: &mut Stats, j: &J) {
     match *j {
+        J::ColdStart { seed, threads, njobs } => cold_start(ctx, st, seed, threads, njobs, j),
         J::BuildHistory { seed } => build_history(ctx, st, seed, j),
         J::RenderHistory { seed, png } => render_history(ctx, st, seed, png, j),
         J::Schedule { seed, threads, njobs } => schedule(ctx, st, seed, threads, njobs, j),
@@ -432,6 +520,13 @@ pub fn run(ctx: &Ctx) -> Report {
             st.merge(s);
         }
     }
+    // cold starts: fresh processes, all threads released from a barrier into their first calls
+    for rep in 0..ctx.tier.pick(24, ctx.scale(400)) {
+        let j = J::ColdStart { seed: mix(ctx.seed, 0xc01d0000 + rep as u64), threads: [16usize, 8, 4, 2][rep % 4], njobs: 12 };
+        let mut s = Stats::new();
+        observe(ctx, &mut s, &j);
+        st.merge(s);
+    }
     let mut extra = vec![];
     if ctx.tier == Tier::Thorough {
         sanit::tsan_stage(ctx, 3).apply(ID, &mut st, &mut extra);
@@ -439,7 +534,7 @@ pub fn run(ctx: &Ctx) -> Report {
     }
     let mut rep = Report::new(
         st,
-        "jobs = (a) builder call histories: 1..14 random calls over mode/ecl/version/mask setters (repeats, any order; last value wins in the model), build() interleaved and repeated up to 5 times, unrelated builds (v1..40) in between, A-B-A sequences; every build() result (all 177*177 raw module bytes + fields) is compared with a FRESH builder given only the final option values and executed on a FRESH thread; (b) renderer call histories: scalar setters in random order preceded by decoy calls with other values, shape calls woven in order; SVG / terminal / PNG output of the used builder, rendered twice, must equal a fresh builder with the final values, and the QRCode digest must be unchanged; (c) schedules: 1, 2, 4, 8, 16 threads each run their own shuffle of one job list (build + terminal/SVG/PNG) with yields, every digest must equal the single-threaded reference; thorough adds ThreadSanitizer (16 threads, std instrumented) and multi-threaded Miri runs under 16 scheduler seeds; distinct key = (history, input) / (seed, thread count); every history non-trivial",
+        "jobs = (a) builder call histories: 1..14 random calls over mode/ecl/version/mask setters (repeats, any order; last value wins in the model), build() interleaved and repeated up to 5 times, unrelated builds (v1..40) in between, A-B-A sequences; every build() result (all 177*177 raw module bytes + fields) is compared with a FRESH builder given only the final option values and executed on a FRESH thread; (b) renderer call histories: scalar setters in random order preceded by decoy calls with other values, shape calls woven in order; SVG / terminal / PNG output of the used builder, rendered twice, must equal a fresh builder with the final values, and the QRCode digest must be unchanged; (c) schedules: 1, 2, 4, 8, 16 threads each run their own shuffle of one job list (build + terminal/SVG/PNG) with yields, every digest must equal the single-threaded reference; (d) cold starts: fresh child processes whose 2..16 threads are released from a barrier into their very first calls of the crate (24 processes quick, 400 thorough), digests compared with the parent's single-threaded reference; thorough adds ThreadSanitizer (16 threads, std instrumented) and multi-threaded Miri runs under 16 scheduler seeds; distinct key = (history, input) / (seed, thread count); every history non-trivial",
     );
     rep.expected_sets = vec![("thread_counts", 5), ("renderer_setters_used", 12)];
     rep.required_sets = vec![("thread_counts", 5), ("renderer_setters_used", 12)];
